@@ -600,6 +600,9 @@ func callLabels(mi *dyn.MethodInfo, c *callCase) (labels []string, nontrivial bo
 	if c.AfterFailedResponse > 0 {
 		labels = append(labels, "after_failed_response")
 	}
+	if c.Config.CtxRoot != "" {
+		labels = append(labels, "context_path_ends_with_root")
+	}
 	if len(mi.R.Segments) > 1 {
 		labels = append(labels, "sub_resource")
 		nontrivial = true
@@ -674,7 +677,9 @@ func checkCall(rec *stats.Recorder, c callCase) (msg string, known string) {
 		if pmi.Params != nil {
 			pc.Params = validValue(pmi.ParamsType())
 		}
-		hx.Try(func() { _, _, _, _, _ = w.do(c.Config, &pc, &dyn.Outcome{Action: bad}, nil) })
+		pcfg := c.Config
+		pcfg.CtxRoot = "" // (the precursor goes to another root resource)
+		hx.Try(func() { _, _, _, _, _ = w.do(pcfg, &pc, &dyn.Outcome{Action: bad}, nil) })
 	}
 	var got *dyn.Outcome
 	var err error
@@ -748,6 +753,9 @@ func TestC02Calls(t *testing.T) {
 		}
 		c.Call = genCall(rt, g, mi)
 		c.Outcome = genOutcome(rt, g, mi, &c.Call)
+		if rapid.IntRange(0, 5).Draw(rt, "ctx_root") == 0 {
+			c.Config.CtxRoot = mi.R.Segments[0].Name // (sub-resources included: the root of /things/1/subs/2/items is "things")
+		}
 		if rapid.IntRange(0, 7).Draw(rt, "after_failed_response") == 0 {
 			c.AfterFailedResponse = 1 + rapid.IntRange(0, 7).Draw(rt, "which_failure")
 		}
